@@ -168,6 +168,16 @@ def gen_cases(rec, rng, tier):
             # push X `length` times is impossible without a counter; instead: pop-all loop after reading a's
             T = [('q0', 'a', None, 'q0', 'X'), ('q0', 'b', None, 'q1', None), ('q1', None, 'X', 'q1', None), ('q1', None, None, 'q2', None)]
             yield {'cls': 'long_pop_loop', 'ref': pd.make(Q, 'ab', 'X', T, 'q0', ['q2']), 'n': 0, 'limit': lim, 'eps': '', 'words': ['a' * length + 'b']}
+    # long words on counting / matching PDAs (stacks of 8..40 symbols, runs of equal letters)
+    if rec.shard % 4 == 3:
+        anbn = pd.make(['q0', 'q1', 'q2', 'q3'], 'ab', ['$', 'A'], [('q0', None, None, 'q1', '$'), ('q1', 'a', None, 'q1', 'A'), ('q1', None, None, 'q2', None),
+                                                                  ('q2', 'b', 'A', 'q2', None), ('q2', None, '$', 'q3', None)], 'q0', ['q3'])
+        pal = pd.make(['p', 'q', 'f'], 'ab', ['A', 'B', '$'], [('p', None, None, 'p', None)][:0] + [('p', 'a', None, 'p', 'A'), ('p', 'b', None, 'p', 'B'), ('p', None, None, 'q', None),
+                                                                  ('p', 'a', None, 'q', None), ('p', 'b', None, 'q', None), ('q', 'a', 'A', 'q', None), ('q', 'b', 'B', 'q', None)], 'p', ['q'])
+        for (cls, RPl, ws) in (('long_words_anbn', anbn, ['a' * k + 'b' * k for k in (6, 9, 16, 33)] + ['a' * 9 + 'b' * 8, 'a' * 16 + 'b' * 17, 'a' * 12]),
+                               ('long_words_palindromes', pal, ['abbaabba', 'ababbbaba', 'aaaaaaaaaaaa', 'abababababa', 'abbabaabba', 'a' * 17, 'ab' * 6])):
+            for lim in (50, 1000):
+                yield {'cls': cls, 'ref': RPl, 'n': 2, 'limit': lim, 'eps': '', 'words': ws}
     if rec.shard == 1:
         for (name, RP, eps) in pdag.shipped_pdas(env.REPO):
             yield {'cls': 'shipped_' + name, 'ref': RP, 'n': 4, 'limit': 1000, 'eps': eps}
